@@ -1122,3 +1122,33 @@ pub fn gen_dse() -> Vec<String> {
     }
     out
 }
+
+/// GEO: counted loops that update a cell as `y = k*y + d` (a geometric closed form in the
+/// optimiser), with constant and input-dependent counts and start values, and a two-cell linear
+/// recurrence.  Deterministic, 120 programs.
+pub fn gen_geo() -> Vec<String> {
+    let mut out = Vec::new();
+    let body = |k: usize, d: usize| format!("[->[->{}<]>[-<+>]<{}<]", "+".repeat(k), "+".repeat(d));
+    for n in [2usize, 3, 5, 8, 9, 13] {
+        for k in [2usize, 3, 5] {
+            for d in [0usize, 1, 3] {
+                // constant count, constant start
+                out.push(format!("{}>+<{}>.", "+".repeat(n), body(k, d)));
+                // constant count, start value from the input
+                out.push(format!("{}>,<{}>.<.", "+".repeat(n), body(k, d)));
+            }
+        }
+    }
+    for k in [2usize, 3] {
+        for d in [0usize, 1] {
+            // count from the input
+            out.push(format!(",>+<{}>.", body(k, d)));
+            out.push(format!(",>,<{}>.", body(k, d)));
+        }
+    }
+    // x, y = y, x + y  (n steps)
+    for n in [3usize, 7, 12, 20] {
+        out.push(format!("{}>+>+<<[->>[->+>+<<]<[->+<]>>>[-<<<+>>>]<[-<+>]<<<]>.>.", "+".repeat(n)));
+    }
+    out
+}
